@@ -55,7 +55,7 @@ claim("C20", "field-flow and variant-flow identity on MIR pairs (new / embed) wi
       "the validity test of a crate cache compares every field of the recorded metadata (compiler version, settings, global flags) with the freshly "
       "computed one, field against field, and refuses on a mismatch; no routine of the cache modules re-orders or de-duplicates a sequence or collects it into a container with an order of its own." + DECIDES +
       " Consistency of the id lookup tables across sections and whether the recorded metadata is *sufficient* (covers every input of the cached phases) are not decided.",
-      "trusted: rustc MIR, fact dumper, name-based pairing of mirror and source fields; tables/c20_exceptions.tsv lists reasoned exceptions; known_findings.jsonl lists one genuine defect",
+      "trusted: rustc MIR, fact dumper, name-based pairing of mirror and source fields; tables/c20_exceptions.tsv lists reasoned exceptions; known_findings.jsonl lists two genuine defects (diagnostics of the cached crate itself that differ)",
       "DESIGN.md section 4, C20")
 claim("C14", "call-graph reachability (class-hierarchy resolution) + panic-site inventory + allocation-size provenance + guard obligations",
       "(a) Bounded allocation: every allocation in code reachable from the untrusted-Sierra entry points has a size that is constant, "
